@@ -246,7 +246,11 @@ func (P *Prog) verifyFunctionCase(fn *ssa.Function, con *Contract, caseParam str
 		}
 	}
 	for i, e := range con.Ensures {
+		// a clause to be proved sits in negative position: an existential in its antecedent is then an
+		// assumption and gets witnesses (skolem constants)
+		post.pol = -1
 		t := vc.evalSpecBool(post, e)
+		post.pol = 0
 		lbl := e.Label
 		if lbl == "" {
 			lbl = fmt.Sprint(i)
